@@ -116,6 +116,7 @@ class StandardQTomographyBasedWeightedProbabilityBasedSquaredError(
         """
         self._matA = np.copy(qt.calc_matA())
         self._vecB = np.copy(qt.calc_vecB())
+        self._num_var = qt.num_variables
         self._calc_extend_weight_matrix()
 
         self._on_func_prob_dists = True
